@@ -35,8 +35,10 @@ VARIABLE i          \* next line of the log to match
 \* (a plain definition is re-evaluated in every state: validation becomes quadratic)
 ASSUME TLCSet(1, ndJsonDeserialize(IOEnv.TRACE))
 Log == TLCGet(1)
-\* the header is needed before the assumptions are checked (cfg substitutions)
-Hdr == ndJsonDeserialize(IOEnv.TRACE)[1]
+\* The header is needed before the assumptions are checked (substitution of the constants in the cfg) and
+\* TLC re-evaluates it for every use of a constant while it starts: it is read from a one-line copy of the
+\* first record, "<TRACE>.hdr", written by the harness; ASSUME below ties it to the log.
+Hdr == ndJsonDeserialize(IOEnv.TRACE \o ".hdr")[1]
 SeqToSet(s) == {s[j] : j \in DOMAIN s}
 
 \* constants of IoRing, from the header (substituted in IoRingTrace.cfg)
@@ -49,7 +51,8 @@ TraceBlockMax == Hdr.bm
 TraceEnabled == SeqToSet(Hdr.en)
 TraceMaxFail == 1000000
 
-ASSUME /\ Hdr.k = "Start"
+ASSUME /\ Hdr = Log[1]
+       /\ Hdr.k = "Start"
        /\ Hdr.rmax = Hdr.dc + Hdr.pc
 
 tvars == <<vars, i>>
